@@ -281,3 +281,46 @@ Section Cutoff.
     assert (a * sin th <= a) by nra. assert (d * cos th <= d) by nra. lra.
   Qed.
 End Cutoff.
+
+(** ** horizontal reach (property C07, surface bounding box): a point at arclength [a] of a piece after the
+    pieces [prefix], offset [d] along the normal, lies no further from the trench (horizontally) than the length
+    of the chain up to there + |d|. *)
+Section Reach.
+  Fixpoint chain_end_x (ps : list (R * R)) (sx : R) : R :=
+    match ps with
+    | [] => sx
+    | (L, th) :: r => chain_end_x r (sx + L * cos th)
+    end.
+
+  Lemma chain_end_x_bound : forall ps sx, (forall L th, In (L, th) ps -> 0 <= L) ->
+    Rabs (chain_end_x ps sx - sx) <= chain_length ps.
+  Proof.
+    induction ps as [|[L th] r IH]; intros sx H; cbn [chain_end_x chain_length].
+    - replace (sx - sx) with 0 by ring. rewrite Rabs_R0. lra.
+    - assert (HL : 0 <= L) by (apply (H L th); left; reflexivity).
+      assert (IH' := IH (sx + L * cos th) (fun L' th' Hin => H L' th' (or_intror Hin))).
+      replace (chain_end_x r (sx + L * cos th) - sx) with ((chain_end_x r (sx + L * cos th) - (sx + L * cos th)) + L * cos th) by ring.
+      eapply Rle_trans; [apply Rabs_triang|].
+      assert (Rabs (L * cos th) <= L).
+      { rewrite Rabs_mult, (Rabs_right L) by lra. pose proof (COS_bound th) as [C0 C1].
+        assert (Rabs (cos th) <= 1) by (apply Rabs_le; lra). nra. }
+      lra.
+  Qed.
+
+  Theorem reach_sufficient_straight : forall prefix sx L th a d,
+    (forall L' th', In (L', th') prefix -> 0 <= L') -> 0 <= a <= L ->
+    Rabs (chain_end_x prefix sx + a * cos th - d * sin th - sx) <= (chain_length prefix + L) + Rabs d.
+  Proof.
+    intros prefix sx L th a d Hp [Ha0 Ha1].
+    pose proof (chain_end_x_bound prefix sx Hp) as B.
+    replace (chain_end_x prefix sx + a * cos th - d * sin th - sx)
+      with ((chain_end_x prefix sx - sx) + (a * cos th + - (d * sin th))) by ring.
+    eapply Rle_trans; [apply Rabs_triang|].
+    assert (A1 : Rabs (a * cos th + - (d * sin th)) <= a + Rabs d).
+    { eapply Rle_trans; [apply Rabs_triang|]. rewrite Rabs_Ropp, !Rabs_mult, (Rabs_right a) by lra.
+      pose proof (COS_bound th) as [C0 C1]. pose proof (SIN_bound th) as [S0 S1].
+      assert (Rabs (cos th) <= 1) by (apply Rabs_le; lra). assert (Rabs (sin th) <= 1) by (apply Rabs_le; lra).
+      pose proof (Rabs_pos d). nra. }
+    lra.
+  Qed.
+End Reach.
